@@ -33,6 +33,7 @@ type Obligation struct {
 	Sig     string  `json:"deviation,omitempty"` // for violations: canonical signature of the deviation (known findings match on it)
 	Config  string  `json:"config,omitempty"`
 	Trivial bool    `json:"-"`
+	Firm    bool    `json:"-"` // the verdict is a fact of the named construct itself: a helper the function may call cannot change it
 }
 
 // RuleInfo describes a rule for the evidence file.
@@ -122,6 +123,7 @@ func (s *Sink) Ok(rule, key, pos, detail string) *Obligation {
 func (s *Sink) Viol(rule, key, pos, msg string) *Obligation {
 	return s.add(rule, key, pos, Violation, msg)
 }
+
 // Downgrade turns a violation into "undecided" (the rule abstains), keeping the counters right.
 func (s *Sink) Downgrade(o *Obligation, detail string) {
 	if o.Verdict != Violation {
